@@ -106,7 +106,7 @@ def sync_tree(src, dst, transform):
     for root, _dirs, files in os.walk(dst):
         for fn in files:
             rel = os.path.relpath(os.path.join(root, fn), dst)
-            if rel not in seen:
+            if rel not in seen and rel != "verif_neon_model.rs":
                 os.remove(os.path.join(root, fn))
 
 def flip_fixslice(rel, text):
@@ -122,15 +122,39 @@ def flip_fixslice(rel, text):
     text = text.replace(b, '#[cfg_attr(not(target_pointer_width = "64"), path = "soft/fixslice64.rs")]')
     return text
 
-TRANSFORMS = {"flip_fixslice": flip_fixslice}
+NEON_NAMES = "vaeseq_u8, vaesdq_u8, vaesmcq_u8, vaesimcq_u8, vqtbl4q_u8"
 
-def gen_shadow(build, repo, name, rdir, cfgs, feats, transform):
-    pdir = os.path.join(build, "shadows", name)
+def neon_model(rel, text):
+    """aarch64 interpreter runs: redirect the five intrinsics Miri lacks to the software model."""
+    if rel == "lib.rs":
+        return text + "\n#[cfg(target_arch = \"aarch64\")]\nmod verif_neon_model;\n"
+    if "arch::aarch64::*" not in text:
+        return text
+    lines = text.split("\n")
+    out = []
+    pending = False
+    for ln in lines:
+        out.append(ln)
+        if "arch::aarch64::*" in ln:
+            pending = True
+        if pending and ";" in ln:
+            out.append("#[allow(unused_imports)]\nuse crate::verif_neon_model::{%s};" % NEON_NAMES)
+            pending = False
+    return "\n".join(out)
+
+TRANSFORMS = {"flip_fixslice": flip_fixslice, "neon_model": neon_model}
+A64_SHADOWS = ["aes_auto", "aes_auto_z", "aes_autoc_z", "kuz", "kuz_z"]
+
+def gen_shadow(build, repo, name, rdir, cfgs, feats, transform, sub="shadows"):
+    pdir = os.path.join(build, sub, name)
     with open(os.path.join(repo, rdir, "Cargo.toml"), "rb") as f:
         man = tomllib.load(f)
     pkg = man["package"]
     if transform:
         sync_tree(os.path.join(repo, rdir, "src"), os.path.join(pdir, "src"), TRANSFORMS[transform])
+        if transform == "neon_model":
+            with open(os.path.join(VERIF, "sim", "models", "verif_neon_model.rs")) as f:
+                write_if_changed(os.path.join(pdir, "src", "verif_neon_model.rs"), f.read())
         libpath = os.path.join(pdir, "src", "lib.rs")
     else:
         libpath = os.path.join(repo, rdir, "src", "lib.rs")
@@ -216,6 +240,21 @@ def main():
             shutil.copy(lock_src, lock_dst)
     elif not os.path.exists(lock_dst):
         shutil.copy(os.path.join(repo, "Cargo.lock"), lock_dst)
+    # aarch64 interpreter workspace: five packages are source shadows with the intrinsic model
+    a64_ok = True
+    for (name, rdir, cfgs, feats, tr) in vs:
+        if name in A64_SHADOWS:
+            gen_shadow(build, repo, name, rdir, cfgs, feats, "neon_model", sub="shadows-a64")
+    ws3 = os.path.join(build, "ws-a64")
+    m3 = m.replace('[[bin]]\nname = "sim-native"', '[[bin]]\nname = "sim-native-unused"')
+    for name in A64_SHADOWS:
+        m3 = m3.replace(f'{name} = {{ path = "../shadows/{name}" }}', f'{name} = {{ path = "../shadows-a64/{name}" }}')
+    write_if_changed(os.path.join(ws3, "Cargo.toml"), m3)
+    write_if_changed(os.path.join(ws3, ".cargo", "config.toml"),
+                     f'[net]\noffline = true\n[build]\ntarget-dir = {json.dumps(os.path.join(build, "target-miri-a64"))}\n')
+    if not os.path.exists(os.path.join(ws3, "Cargo.lock")):
+        shutil.copy(lock_dst, os.path.join(ws3, "Cargo.lock"))
+
     # shuttle workspace: same shadows, cpufeatures seam with shuttle atomics
     ws2 = os.path.join(build, "ws-shuttle")
     m = "# GENERATED by /verif/gen/shadows.py - do not edit\n"
